@@ -368,13 +368,21 @@ class Facts:
     # ...................................................................
     @staticmethod
     def _kill(st: FrozenSet[Atom], written: Set[str],
-              under_only: Set[str] = frozenset()) -> FrozenSet[Atom]:
-        if not written and not under_only:
+              under_only: Set[str] = frozenset(),
+              content: Set[str] = frozenset()) -> FrozenSet[Atom]:
+        if not written and not under_only and not content:
             return st
         keep = []
         for a in st:
             ps = key_paths(a[1])
             dead = False
+            for w in content:
+                # the object's contents changed: identity facts survive
+                if w in ps and a[1] != w + ' is None':
+                    dead = True
+                    break
+            if dead:
+                continue
             for p in ps:
                 for w in written:
                     if p == w or p.startswith(w + '.'):
@@ -516,6 +524,7 @@ class Facts:
         e: ast.Call = n.ast
         under = set()
         written = set()
+        content = set()
         # receiver object may be mutated
         if isinstance(e.func, ast.Attribute):
             rp = path_of(e.func.value, fr)
@@ -539,7 +548,7 @@ class Facts:
                     elif meth not in _PURE_METHODS:
                         under.add(rp)
                         if meth in _MUTATORS:
-                            written.add(rp)
+                            content.add(rp)
         for i, a in enumerate(list(e.args) + [k.value for k in e.keywords]):
             if isinstance(a, ast.Starred):
                 a = a.value
@@ -549,7 +558,7 @@ class Facts:
                         self.arg_mutated(n, i) is False:
                     continue
                 under.add(ap)
-        out = self._kill(st, written, under)
+        out = self._kill(st, written, under, content)
         return {None: out, 'exc': out}
 
     def _bind(self, n: Node, st):
